@@ -248,6 +248,11 @@ def verify_unit(unit, tier):
             undec.append(("verifier-crash", "verus printed failures but its summary counts none (verified=%s errors=%s)" % (res.get("verified"), res.get("errors")), "", []))
         elif res.get("verified", 0) == 0 and not undec:
             undec.append(("verifier-crash", "verus verified no function of unit %s" % unit, "", []))
+        # ... and it must have looked at every function of the unit: verified + failed functions never drops below the number
+        # recorded for the unit on the unchanged tree (`functions` in spec/units.json, written by lib/count_functions.py)
+        expect = UNITS[unit].get("functions")
+        if expect and not undec and res.get("verified", 0) + res.get("errors", 0) < expect:
+            undec.append(("verifier-crash", "verus checked only %d of the %d functions of unit %s" % (res.get("verified", 0) + res.get("errors", 0), expect, unit), "", []))
         return {"j": j, "fails": fails, "undec": undec, "cmd": cmd, "dt": dt}
 
     with concurrent.futures.ThreadPoolExecutor(max_workers=4) as ex:
@@ -414,7 +419,11 @@ def check_one(pid, tier):
         json.dump(ev, open(evidence_path, "w"), indent=1)
         return 2
 
-    units = cfg["units"]
+    # `supports`: units whose contracts this property's own units ASSUME (e.g. the client proofs assume that the sequences
+    # deliver every fault as an error item). No obligation there is this property's; a failure there (optionally only in the
+    # listed items) leaves the property undecided instead of silently proved from a broken assumption.
+    supports = cfg.get("supports", {})
+    units = list(cfg["units"]) + [u for u in supports if u not in cfg["units"]]
     try:
         crates = []
         for u in units:
@@ -474,6 +483,11 @@ def check_one(pid, tier):
             fprops = set()
             for f in fl:
                 fprops |= set(f["props"])
+            if r["unit"] in supports and pid not in fprops:
+                only = supports[r["unit"]]
+                if not only or any(k in rid for k in only):
+                    undec_reasons.append("%s: supporting obligation %s failed (it belongs to %s); this property's proof assumes it" % (r["unit"], rid, ",".join(sorted(p for p in fprops if not p.startswith("~"))) or "-"))
+                continue
             if rg is None or not fprops:
                 untagged_fail.append((r["unit"], rid, fl[0]))
             elif ("~" + pid) in fprops and pid not in fprops:
@@ -563,7 +577,8 @@ def check_one(pid, tier):
             "samples": samples,
             "back_end": "Verus 0.2026.09.13 (Z3) on text extracted from /repo by tool/zx",
             "units": [{"unit": r["unit"], "functions_verified_by_verus": r["verified"], "errors_other_than_canary": max(0, r["errors"] - 1),
-                       "assembled_sha256_16": r["sha"], "wall_s": round(r["wall"], 2), "verus_attempts": r["attempts"]} for r in results],
+                       "assembled_sha256_16": r["sha"], "wall_s": round(r["wall"], 2), "verus_attempts": r["attempts"],
+                       "role": ("assumed by this property's units: a failure here%s leaves the property undecided" % ((" in " + "/".join(supports[r["unit"]])) if supports.get(r["unit"]) else "")) if (r["unit"] in supports and r["unit"] not in cfg["units"]) else "carries this property's obligations"} for r in results],
             "functions_under_contract": fn_under_contract,
             "solver_ms_total": solver_ms,
             "slowest_functions": sorted([f for r in results for f in r["functions"]], key=lambda x: -x["ms"])[:8],
